@@ -65,33 +65,40 @@ func lintOne(c engine.Case, reg lint.Registry) string {
 // runProgram executes the program; returns a violation signature/message.
 func runProgram(p program) (sig, msg string) {
 	g := lint.GlobalRegistry()
-	regs := []lint.Registry{g}
-	for _, f := range p.Filters {
-		o, err := f.Options()
-		if err != nil {
-			continue
+	// mkRegs builds the shared registries. The concurrent phase gets *fresh*
+	// filtered registries that nothing has used yet (first use is concurrent);
+	// the sequential reference uses separately built twins.
+	mkRegs := func() []lint.Registry {
+		regs := []lint.Registry{g}
+		for _, f := range p.Filters {
+			o, err := f.Options()
+			if err != nil {
+				continue
+			}
+			r, err := g.Filter(o)
+			if err != nil {
+				continue
+			}
+			regs = append(regs, r)
 		}
-		r, err := g.Filter(o)
-		if err != nil {
-			continue
-		}
-		regs = append(regs, r)
+		return regs
 	}
+	seqRegs := mkRegs()
 	// sequential memo
 	type key struct{ obj, reg int }
 	memo := map[key]string{}
 	for _, w := range p.Workers {
 		for _, o := range w {
 			if o.Kind == "lint" {
-				k := key{o.Obj % len(p.Objects), o.Reg % len(regs)}
+				k := key{o.Obj % len(p.Objects), o.Reg % len(seqRegs)}
 				if _, ok := memo[k]; !ok {
-					memo[k] = lintOne(p.Objects[k.obj], regs[k.reg])
+					memo[k] = lintOne(p.Objects[k.obj], seqRegs[k.reg])
 				}
 			}
 		}
 	}
-	wantNames := make([][]string, len(regs))
-	for i, r := range regs {
+	wantNames := make([][]string, len(seqRegs))
+	for i, r := range seqRegs {
 		wantNames[i] = append([]string{}, r.Names()...)
 	}
 	old := runtime.GOMAXPROCS(p.GOMAXPROCS)
@@ -101,6 +108,10 @@ func runProgram(p program) (sig, msg string) {
 		runs = 1
 	}
 	for run := 0; run < runs; run++ {
+		regs := mkRegs() // untouched until the workers start
+		if len(regs) != len(seqRegs) {
+			return "", ""
+		}
 		var wg sync.WaitGroup
 		start := make(chan struct{})
 		errs := make(chan [2]string, len(p.Workers)*4)
@@ -129,14 +140,24 @@ func runProgram(p program) (sig, msg string) {
 					case "filter":
 						f := p.Filters[o.Obj%len(p.Filters)]
 						if fo, err := f.Options(); err == nil {
-							if r2, err := reg.Filter(fo); err == nil && r2 != nil {
+							if r2, err := reg.Filter(fo); err != nil {
+								if _, err2 := seqRegs[o.Reg%len(regs)].Filter(fo); err2 == nil {
+									errs <- [2]string{"filter-differs-from-sequential", fmt.Sprintf("worker %d: Filter fails under concurrency (%v) but succeeds alone", wi, err)}
+									return
+								}
+							} else if r2 != nil {
 								_ = r2.Names()
 							}
 						}
 					case "names":
 						n := reg.Names()
-						if len(n) != len(wantNames[o.Reg%len(regs)]) {
-							errs <- [2]string{"names-changed", "Names() changed under concurrency"}
+						w := wantNames[o.Reg%len(regs)]
+						same := len(n) == len(w)
+						for i := 0; same && i < len(n); i++ {
+							same = n[i] == w[i]
+						}
+						if !same {
+							errs <- [2]string{"names-differ-from-sequential", fmt.Sprintf("worker %d: Names() of registry %d differs from the same call made alone (%d vs %d entries)", wi, o.Reg%len(regs), len(n), len(w))}
 							return
 						}
 					case "sources":
